@@ -187,7 +187,7 @@ def make_scenario(seed, i):
             ctx_q = []
             for idx, k in enumerate(chosen):
                 sc["swap"].append({"name": k[0], "arity": k[1], "rows": [list(r) for r in fp[k]],
-                                   "style": rng.choice(["inferred", "explicit", "variadic", "inferred-decorated", "inferred-method"]),
+                                   "style": rng.choice(["inferred", "explicit", "variadic", "inferred-decorated", "inferred-method", "inferred-default"]),
                                    "yields": rng.choice(["true", "false", "mixed", "none"])})
                 if idx < 2:
                     rules, qs = _contexts(rng, k, fp[k], idx)
@@ -207,10 +207,10 @@ def make_scenario(seed, i):
     m = rng.randint(1, 5)
     sc["argcheck"] = {"templates": [rng.choice(_ARG_POOL) for _ in range(m)],
                       "caller": rng.choice(["api", "compiled", "compiled", "call", "call", "once", "findall"]),
-                      "split": rng.randint(0, m), "style": rng.choice(["inferred", "explicit", "variadic", "inferred-decorated", "inferred-method"])}
+                      "split": rng.randint(0, m), "style": rng.choice(["inferred", "explicit", "variadic", "inferred-decorated", "inferred-method", "inferred-default"])}
     sc["exc"] = {"query": rng.choice(_EXC_QUERIES), "succ": sorted(rng.sample([1, 2, 3], rng.randint(0, 3))),
                  "event": rng.randint(0, 7), "exc_class": rng.choice(["custom", "yp", "runtime", "key", "value"]),
-                 "style": rng.choice(["inferred", "explicit", "variadic", "inferred-decorated", "inferred-method"])}
+                 "style": rng.choice(["inferred", "explicit", "variadic", "inferred-decorated", "inferred-method", "inferred-default"])}
     # the Python predicates are registered before (True) or after the script is loaded: the order is the user's choice
     sc["register_first"] = rng.random() < 0.5
     return untup(sc)
@@ -273,6 +273,15 @@ def _traced(f):
 def register(real, name, f, arity, style):
     if style == "inferred":
         real.yp.register_function(name, f)
+    elif style == "inferred-default":
+        # the arity is the number of parameters of the function, with or without default values
+        if arity == 0:
+            real.yp.register_function(name, f)
+        else:
+            ps = ["a%d" % (i + 1) for i in range(arity)]
+            env = {"f": f}
+            exec("def pred(%s=None):\n    return f(%s)\n" % (",".join(ps), ",".join(ps)), env)
+            real.yp.register_function(name, env["pred"])
     elif style == "inferred-method":
         # a bound method of an object that nothing else refers to (the registration is what keeps the predicate alive)
         ps = ",".join("a%d" % (i + 1) for i in range(arity))
